@@ -109,7 +109,33 @@ def c_rotmap(ctx, args):
     return None
 
 
-CHECKS = {'rotmap': c_rotmap, 'tr_corr': c_tr_corr, 'tr_dense': c_tr_dense, 'embed_corr': c_embed_corr, 'masked_is_embedded': c_masked_is_embedded,
+def c_single(ctx, args):
+    """transform_by on a single Pauli / PauliMonomial object (their own wrappers) agrees with the one-row list, masked or not"""
+    be, m, mask, a, form = args
+    if be == 'np':
+        import vlib.impl_np as M
+    else:
+        import vlib.impl_torch as M
+    ref = impl(be).OPS['transform'](m, mask, [a])
+    if not isinstance(ref, list):
+        return None
+    try:
+        o = M.P(a)
+        if form == 'mono':
+            if not hasattr(o, 'as_monomial'):
+                return None
+            o = o.as_monomial()
+        r = o.transform_by(M.CM(m), mask=M.optmask(mask))
+        r = r if r is not None else o
+        got = M.oP(r)
+    except Exception as e:
+        return {'kind': 'oracle', 'where': '%s:%s.transform_by raised %s' % (be, form, type(e).__name__), 'observed': str(e)[:100], 'expected': ref[0]}
+    if [got[0], got[1] % 4] != [ref[0][0], ref[0][1] % 4]:
+        return {'kind': 'oracle', 'where': '%s:transform_by on a single %s differs from the one-row list' % (be, form), 'observed': got, 'expected': ref[0], 'tags': ['single_object', be]}
+    return None
+
+
+CHECKS = {'single': c_single, 'rotmap': c_rotmap, 'tr_corr': c_tr_corr, 'tr_dense': c_tr_dense, 'embed_corr': c_embed_corr, 'masked_is_embedded': c_masked_is_embedded,
           'state_corr': c_state_corr}
 
 
@@ -164,3 +190,8 @@ def run(ctx):
         mask = gen.rmask(rng, N, k)[0]
         g = gen.rpauli(rng, k, herm=True, nonzero=True)
         do(ctx, 'rotmap', [rng.choice(backends), g, gen.rplist(rng, N, 4), mask], nontrivial=('rmm', ctx.res.evaluations))
+    for _ in range(int(150 * B)):
+        N = rng.randint(1, 5)
+        k = rng.randint(1, N)
+        mask = None if k == N else gen.rmask(rng, N, k)[0]
+        do(ctx, 'single', [rng.choice(['np', 'np', 'torch']), gen.rmap(rng, ctx.model, k), mask, gen.rpauli(rng, N), rng.choice(['pauli', 'mono'])], nontrivial=('sg', ctx.res.evaluations))
